@@ -56,7 +56,7 @@ unsigned long long convert_list_to_bitmap(int *list)
         /*
          * TODO: Assert list[i] < 64
          */
-        bm |= (1 << list[i]);
+        bm |= (1ULL << list[i]);
         i++;
     }
 
